@@ -42,6 +42,13 @@ def sym_param_jobs():
     return out
 
 
+def near_twins():
+    C1, C2, X, Y = fam.C(1), fam.C(2), fam.X, fam.Y
+    return [["Add", C1, C2], ["Multiply", C1, C2, X], ["Add", ["Multiply", C1, X], ["Multiply", C2, X]], ["Multiply", ["Add", X, C1], ["Add", X, C2]],
+            ["Add", ["Sine", ["Multiply", C1, X]], ["Sine", ["Multiply", C2, X]], Y], ["Minus", ["Power", X, C1], ["Power", X, C2]],
+            ["Divide", ["Exponential", ["Multiply", C1, X]], ["Exponential", ["Multiply", C2, X]]]]
+
+
 def jobs(tier, seed):
     js = []
 
@@ -59,6 +66,14 @@ def jobs(tier, seed):
         for key in keys:
             add(d, pre=[["eval", key, "q"]])
             add(d, pre=[["eval", key, "q"], ["eval", "root", "q"]])
+    # the main point first, then the caches below the root refilled elsewhere (other entry point / a shared sub-expression object), then the main point again
+    extra_sw = [["Exponential", ["Multiply", fam.X, fam.Y]], ["Reciprocal", ["Add", ["NthPower", fam.X, 2], fam.Y]], ["Add", ["Logarithm", ["Multiply", fam.X, fam.X]], fam.Y]]
+    for d in fam.f1_shared(tier) + extra_sw:
+        for pre in fam.sandwiches(d):
+            add(d, pre=pre, var="x", no_exact=True)
+    # operands that are the same expression up to ONE symbolic constant (a structural comparison that is not exact would confuse them)
+    for d in near_twins():
+        add(d, no_exact=True)
     # bare number in place of a point
     for d in fam.unary_variants(fam.X, tier) + [["Add", fam.X, ["const", 2]], ["Multiply", fam.X, fam.X], ["Add"], ["const", 3]]:
         add(d, routes=("eval_num",), var="x", supplied=["x"])
@@ -93,7 +108,7 @@ def exactness_vc(spec, ctx, out, idx):
     from symreal import fpexact as fx
     from harness.run import VC
     t = common.val_term(out)
-    if t is None or spec.get("twin") or spec.get("assume"):
+    if t is None or spec.get("twin") or spec.get("assume") or spec.get("no_exact"):     # (no_exact: history variants of trees whose plain job carries Part E)
         return None
     if not (fx.is_rational_fragment(t) and fx.is_rational_fragment(ctx.ref)):
         return None
